@@ -216,6 +216,13 @@ def NArr.getItem (c : PCol α) (k : Key) : R (GetRes α) :=
 def boxScalar (ty : List (String × String)) (r : Row α) : PScalar α :=
   r.map fun t => ty.map fun (n, _) => (t.find? (·.1 == n)).map (·.2)
 
+/-- the fill step of `take(..., allow_fill=True)`: a missing fill value leaves the nulls that
+    `take` with null indices produced; a table is broadcast and selected by `if_else` -/
+def fillMasked (ty : List (String × String)) (mask : List Bool) (fv : PScalar α) (res : PStruct α) : PStruct α :=
+  match fv with
+  | none => res
+  | some _ => PStruct.ifElse mask (PStruct.ofScalars ty (List.replicate mask.length fv)) res
+
 /-- `take` (ext_array.py:411-480). -/
 def NArr.take (c : PCol α) (indices : List Int) (allowFill : Bool) (fill : Row α) : R (PCol α) := do
   let n := c.len
@@ -227,13 +234,7 @@ def NArr.take (c : PCol α) (indices : List Int) (allowFill : Bool) (fill : Row 
     else
       if indices.any (· < -1) then throw .valueError
       let res := c.combine.take (indices.map fun i => if i < 0 then none else some i.toNat)
-      let fv := boxScalar c.ty fill
-      let res := match fv with
-        | none => res
-        | some _ =>
-          PStruct.ifElse (indices.map (· < 0))
-            (PStruct.ofScalars c.ty (List.replicate indices.length fv)) res
-      NArr.init { c with chunks := [res] }
+      NArr.init { c with chunks := [fillMasked c.ty (indices.map (· < 0)) (boxScalar c.ty fill) res] }
   else
     let idx := indices.map (normPos n)
     if idx.any Option.isNone then throw .indexError
